@@ -6,8 +6,10 @@ CONSTANTS
   BUGGY_F15 = FALSE
   BUGGY_F16 = FALSE
   BUGGY_F18 = FALSE
+  BUGGY_F20 = FALSE
   BUGGY_F19 = TRUE
   KeySet <- K6s
+  BuildKeys <- K6s
   MaxW = 2
   CurArgs <- ArgsS
 INVARIANTS CursorOK
